@@ -33,8 +33,8 @@ import (
 	"testing"
 	"time"
 
-	"github.com/ChainSafe/gossamer/lib/common"
 	kit "github.com/ChainSafe/gossamer/internal/verifkit"
+	"github.com/ChainSafe/gossamer/lib/common"
 	"github.com/anishathalye/porcupine"
 	"pgregory.net/rapid"
 )
